@@ -866,6 +866,12 @@ class IsoHybrid:
         padding = 0
         if frac > 0:
             padding = cylsize - frac
+        if self.efi:
+            # The backup GPT (128 partition entries of 128 bytes plus the
+            # 512-byte header) is written at the very end of the padded image;
+            # make sure it lands in the padding and not on top of the ISO.
+            while padding < 128 * 128 + 512:
+                padding += cylsize
         cc = min((iso_size + padding) // cylsize, 1024)
 
         return (cc, padding)
